@@ -174,6 +174,13 @@ def directed():
             {'name': 'L2', 'start': 0.0, 'callers': [{'c': 3, 'k': 'a', 'at': 0.5}, {'c': 4, 'k': 'a', 'at': 2.0}], 'life': 'full'}],
             'func': {'dur': 0, 'fail': fail, 'form': 'plain'}, 'mapping': mp,
             'strategy': {'kind': 'replay', 'prefix': []}})
+    # a computation that outlasts the 60 s safety window of the callers waiting for it (on its own and on another
+    # loop, arriving before and after the first window has expired): still one invocation, one result
+    for dur, late in itertools.product([61.0, 150.0], [70.0, 125.0]):
+        out.append({'loops': [
+            {'name': 'L1', 'start': 0.0, 'callers': [{'c': 1, 'k': 'a'}, {'c': 2, 'k': 'a', 'at': 1.0}], 'life': 'full'},
+            {'name': 'L2', 'start': 0.0, 'callers': [{'c': 3, 'k': 'a', 'at': 1.0}, {'c': 4, 'k': 'a', 'at': late}], 'life': 'full'}],
+            'func': {'dur': dur}, 'mapping': 'dict', 'strategy': {'kind': 'replay', 'prefix': []}})
     # results that are None / falsy are results like any other: concurrent callers plus a later one
     for ret, mp, dur in itertools.product(['none', 'falsy'], ['dict', 'mm', 'lru'], [0, 1.0]):
         out.append({'loops': [
